@@ -130,7 +130,28 @@ func propC16(r *Run, w *World) {
 		for _, st := range storesOf(fn) {
 			t := AddrTerm(st.Addr)
 			if strings.HasPrefix(t, loc+".") {
-				m[strings.TrimPrefix(t, loc+".")] = Term(st.Val)
+				k := strings.TrimPrefix(t, loc+".")
+				// a store to an aggregate replaces what was stored to its parts before
+				for old := range m {
+					if strings.HasPrefix(old, k+".") {
+						delete(m, old)
+					}
+				}
+				m[k] = Term(st.Val)
+			}
+		}
+		// zeroing an aggregate before its parts are set says only "the remaining parts are zero"
+		for k, v := range m {
+			if strings.HasPrefix(v, "zero(") {
+				parts := false
+				for other := range m {
+					if strings.HasPrefix(other, k+".") {
+						parts = true
+					}
+				}
+				if parts {
+					delete(m, k)
+				}
 			}
 		}
 		return m, loc
